@@ -251,14 +251,16 @@ PROPS["C03"] = dict(
                "mem::{get_executable_memory_slice,memory_read_byte,memory_write_byte}", "cart::*::{write_rom,get_rom_bank}"],
     bounds={"quick": "key packing over all (bank,address) pairs; region insert/get for every tag and address; region split for every ROM address; glue invariant as an inductive step: "
                      "pre-state with tag == mapped bank, the executed block performs an ARBITRARY guest write below 0x8000 (any bank switch), the next step's lookup must see tag == "
-                     "mapped bank; MBC1 and MBC3, all ROM sizes; translation source == fetch view == data view for every ROM address and every bank state",
+                     "mapped bank; MBC1 and MBC3, all ROM sizes; translation source == fetch view == data view for every ROM address and every bank state; the real translate_code_block "
+                     "(decoder and emitter cut) is shown the currently mapped bytes instruction by instruction for a block running across 0x3fff/0x4000",
             "thorough": "same"},
     outside=["a block that switches the bank of the region it is executing from (design limit of block translation)", "BTreeMap itself (std, trusted)", "WRAM/HRAM regions (never translated)",
              "the translated bytes themselves are C01's subject: the three cache entry points are replaced by monitors here"],
     stubs=CTOR_STUBS + ["CodeCache::{get_address_for_ip,translate_code_block,call} and interpreter::run_code_block -> monitors (check tag vs mapped bank; perform an arbitrary guest write)",
-                        "MemoryAreas::run_clock_cycles -> no-op"],
+                        "MemoryAreas::run_clock_cycles -> no-op", "decoder::decode -> 'three 1-byte instructions then a terminator' recorder and Emitter::encode_op/encode_epilogue -> fixed lengths (translate-source harness)",
+                        "cache::linux::apply_protection -> no-op (mprotect FFI)"],
     assumptions=[],
-    replay={"c03_glue_*": "solver-only", "*": "playback"},
+    replay={"c03_glue_*": "solver-only", "c03_translate_*": "solver-only", "*": "playback"},
 )
 
 _GLUE_STUBS = CTOR_STUBS + ["CPU executor (interpreter::run_next_op / run_code_block, CodeCache::{get_address_for_ip,translate_code_block,call}) -> 'consumes K >= 1 machine cycles, continues at an arbitrary PC, signals an arbitrary status'",
